@@ -228,7 +228,7 @@ func ResolvePatterns(pkgDir string, patterns []string) ([]FileData, error) {
 			return nil, wrapErr(fmt.Errorf("invalid pattern syntax"))
 		}
 
-		absPattern := filepath.Join(pkgDir, filepath.FromSlash(pat))
+		absPattern := filepath.Join(quoteGlob(pkgDir), filepath.FromSlash(pat))
 		matches, _ := filepath.Glob(absPattern)
 
 		listCount := 0
@@ -305,6 +305,24 @@ func ResolvePatterns(pkgDir string, patterns []string) ([]FileData, error) {
 		out = append(out, FileData{Name: name, Data: seen[name]})
 	}
 	return out, nil
+}
+
+// quoteGlob returns s with all Glob metacharacters quoted, so that a package
+// directory such as "/src/my[proj]/pkg" is taken literally (as cmd/go does with
+// str.QuoteGlob). Backslash is left alone: it can appear in a Windows path.
+func quoteGlob(s string) string {
+	if !strings.ContainsAny(s, `*?[]`) {
+		return s
+	}
+	var sb strings.Builder
+	for _, c := range s {
+		switch c {
+		case '*', '?', '[', ']':
+			sb.WriteByte('\\')
+		}
+		sb.WriteRune(c)
+	}
+	return sb.String()
 }
 
 func ValidPattern(pattern string) bool {
